@@ -64,10 +64,10 @@ BCA = {
 HOMOGENEOUS = {"default", "value0", "derivative0"}
 
 CLASSES = {
-    "DiffusionPDE": {"params": [{}, {"diffusivity": 1 / 3}], "bcs": ["bc"]},
+    "DiffusionPDE": {"params": [{}, {"diffusivity": 1 / 3}, {"diffusivity": 1.5e-9}], "bcs": ["bc"]},
     "AllenCahnPDE": {"params": [{}, {"interface_width": 0.7, "mobility": 1 / 3}], "bcs": ["bc"]},
     "CahnHilliardPDE": {"params": [{}, {"interface_width": 0.7}], "bcs": ["bc_c", "bc_mu"]},
-    "KPZInterfacePDE": {"params": [{}, {"nu": 1 / 3, "lmbda": 0.7}], "bcs": ["bc"]},
+    "KPZInterfacePDE": {"params": [{}, {"nu": 1 / 3, "lmbda": 0.7}, {"nu": 2.5e-9, "lmbda": 7e-9}], "bcs": ["bc"]},
     "KuramotoSivashinskyPDE": {"params": [{}, {"nu": 0.7}], "bcs": ["bc", "bc_lap"]},
     "SwiftHohenbergPDE": {"params": [{}, {"rate": 1 / 3, "kc2": 0.7, "delta": 1.3}], "bcs": ["bc", "bc_lap"]},
     "WavePDE": {"params": [{}, {"speed": 0.7}], "bcs": ["bc"], "collection": True},
@@ -155,7 +155,9 @@ def scenario_class(env, cfg):
             else:
                 got = np.array(gen.make_pde_rhs(st.copy(), backend="numba")(np.array(x, copy=True), t), copy=True)
             # 6 printed significant digits of the parameters
-            env.close(f"class-rate=PDE(printed-expression)[{be}]", list(got.flat), list(res[ref].flat), scale=SC * 64, eps=1e-5)
+            # 6 printed significant digits of each parameter: tolerance relative to the largest parameter
+            pmax = max([abs(v) for v in cfg["params"].values()] + ([1.0] if not cfg["params"] else []))
+            env.close(f"class-rate=PDE(printed-expression)[{be}]", list(got.flat), list(res[ref].flat), scale=256 * pmax, eps=1e-5)
     env.observe("rate", res[ref])
     env.reach()
 
